@@ -112,10 +112,11 @@ func fnExec(ctx *cmdContext, args map[string]any) (output respValue, err error) 
 	// watched keys of other databases are checked before this database is locked
 	changedElsewhere := isAbortedExecElsewhere(ctx.cs, ctx.dsc.ds)
 
-	// a queued FLUSHALL will lock the other data stores while this one is owned: the order
-	// "multi data store lock first" keeps two such transactions from deadlocking each other
+	// a queued FLUSHALL or SELECT makes this transaction lock other data stores while this one
+	// is owned: the order "multi data store lock first" keeps two such transactions from
+	// deadlocking each other
 	for _, cc := range *ctx.cs.cmdQueue {
-		if cc.cmdToken == "flushall" {
+		if cc.cmdToken == "flushall" || cc.cmdToken == "select" {
 			multiDataStoreLock.Lock()
 			defer multiDataStoreLock.Unlock()
 			break
